@@ -43,3 +43,106 @@ Theorem C13_grid_same_chunks : forall size cs c,
   In c (cgrid size cs) <-> In c (vgrid size cs).
 Proof. exact cgrid_vgrid. Qed.
 Print Assumptions C13_grid_same_chunks.
+
+(* ---- closed instances: raw source, raw / compressed_segmentation
+   destination, unsigned integer data types (proofs in
+   theories/Link/LinkVolumeProofs.v) ----
+   The abstract parameters of C13_convert_pointwise are instantiated: the
+   voxel type is the element type [num] of the data-type transformer, f is
+   the transformer [convert_scalar i o] of C11 itself, the source decoder is
+   the modelled RawChunkEncoder.decode for type i, the destination codec the
+   modelled raw codec for type o (or the compressed_segmentation codec),
+   acting on chunks through the glue of LinkVolume.v.  The destination
+   round-trip hypothesis is discharged by raw_roundtrip (C10) /
+   encode_impl_roundtrip (C02), the source decoder-shape hypothesis by the
+   definition of raw_decode; the value map is exact saturation by
+   C11_int_to_int_exact.  (NoDup of the keys is not needed.)  The remaining
+   hypothesis on the source says that what the source store returns are byte
+   strings (every element below 256). *)
+From NGS Require Import DType Convert LinkVolume LinkVolumeProofs.
+
+(* if the command succeeds, EVERY chunk of EVERY scale of the destination
+   reads back as the element-wise saturation into the range of o of the
+   integers of the same source chunk (which all lie in the range of i, and
+   are num_channels * X * Y * Z many) *)
+Theorem C13_convert_pointwise_raw_to_raw :
+  forall (i o : dtype) (nc : N)
+         (sscales dscales : list scale) (src dst : store (list N)) (tr : list event),
+  uint_dt i = true -> uint_dt o = true ->
+  (forall k c b, lookup (list N) src k c = Some b -> Words.bytes_ok b) ->
+  let sdec := vraw_dec (dt_isz i) nc in
+  let denc := vraw_enc (dt_isz o) nc in
+  let ddec := vraw_dec (dt_isz o) nc in
+  convert_chunks num (convert_scalar i o) (list N) (list N) sdec denc sscales dscales src []
+    = Ok (dst, tr) ->
+  forall s cs c,
+  In s dscales -> In cs (sc_chunk_sizes s) -> In c (cgrid (sc_size s) cs) ->
+  exists zs,
+    read_chunk (cchunk num) (list N) sdec sscales src (sc_key s) c = Ok (extents c, map NI zs) /\
+    Forall (in_range i) zs /\
+    (let '(ex, ey, ez) := extents c in Z.of_nat (length zs) = Z.of_N nc * (ez * ey * ex)) /\
+    read_chunk (cchunk num) (list N) ddec dscales dst (sc_key s) c
+      = Ok (extents c, map (fun z => NI (clamp o z)) zs).
+Proof. exact convert_pointwise_raw_to_raw. Qed.
+Print Assumptions C13_convert_pointwise_raw_to_raw.
+
+(* the same with a compressed_segmentation destination of label type dt
+   (uint32 / uint64) and any block size g *)
+Theorem C13_convert_pointwise_raw_to_cseg :
+  forall (i : dtype) (dt : Words.dtype) (nc : N) (g : CSegEncode.geom)
+         (sscales dscales : list scale) (src dst : store (list N)) (tr : list event),
+  uint_dt i = true ->
+  (forall k c b, lookup (list N) src k c = Some b -> Words.bytes_ok b) ->
+  let o := label_dt dt in
+  let sdec := vraw_dec (dt_isz i) nc in
+  let denc := vcseg_enc dt nc g in
+  let ddec := vcseg_dec dt nc g in
+  convert_chunks num (convert_scalar i o) (list N) (list N) sdec denc sscales dscales src []
+    = Ok (dst, tr) ->
+  forall s cs c,
+  In s dscales -> In cs (sc_chunk_sizes s) -> In c (cgrid (sc_size s) cs) ->
+  exists zs,
+    read_chunk (cchunk num) (list N) sdec sscales src (sc_key s) c = Ok (extents c, map NI zs) /\
+    Forall (in_range i) zs /\
+    (let '(ex, ey, ez) := extents c in Z.of_nat (length zs) = Z.of_N nc * (ez * ey * ex)) /\
+    read_chunk (cchunk num) (list N) ddec dscales dst (sc_key s) c
+      = Ok (extents c, map (fun z => NI (clamp o z)) zs).
+Proof. exact convert_pointwise_raw_to_cseg. Qed.
+Print Assumptions C13_convert_pointwise_raw_to_cseg.
+
+(* non-vacuity: a uint16 raw source (two chunks, one an edge chunk) holding
+   300, 7, 65535 converted to uint8 raw meets the hypotheses, the command
+   succeeds and the destination holds 255, 7, 255 *)
+Example C13_raw_to_raw_example :
+  uint_dt U16 = true /\ uint_dt U8 = true /\
+  (forall k c b, lookup (list N) lv_src16 k c = Some b -> Words.bytes_ok b) /\
+  exists dst tr,
+    convert_chunks num (convert_scalar U16 U8) (list N) (list N)
+      (vraw_dec (dt_isz U16) 1) (vraw_enc (dt_isz U8) 1) lv_scales lv_scales lv_src16 []
+      = Ok (dst, tr) /\
+    read_chunk (cchunk num) (list N) (vraw_dec (dt_isz U16) 1) lv_scales lv_src16 [1%N] (0, 2, 0, 1, 0, 1)
+      = Ok ((2, 1, 1), map NI [300; 7]) /\
+    read_chunk (cchunk num) (list N) (vraw_dec (dt_isz U8) 1) lv_scales dst [1%N] (0, 2, 0, 1, 0, 1)
+      = Ok ((2, 1, 1), map NI [255; 7]) /\
+    lookup (list N) dst [1%N] (2, 3, 0, 1, 0, 1) = Some [255%N].
+Proof. exact convert_pointwise_raw_to_raw_nonvacuous. Qed.
+Print Assumptions C13_raw_to_raw_example.
+
+(* non-vacuity: a uint64 raw source holding 2^40, 7, 2^32-1 converted to
+   uint32 compressed_segmentation (8x8x8 blocks): the command succeeds and the
+   destination decodes to 2^32-1, 7, 2^32-1 *)
+Example C13_raw_to_cseg_example :
+  uint_dt U64 = true /\
+  (forall k c b, lookup (list N) lv_src64 k c = Some b -> Words.bytes_ok b) /\
+  exists dst tr,
+    convert_chunks num (convert_scalar U64 (label_dt Words.U32)) (list N) (list N)
+      (vraw_dec (dt_isz U64) 1) (vcseg_enc Words.U32 1 lv_geom) lv_scales lv_scales lv_src64 []
+      = Ok (dst, tr) /\
+    read_chunk (cchunk num) (list N) (vraw_dec (dt_isz U64) 1) lv_scales lv_src64 [1%N] (0, 2, 0, 1, 0, 1)
+      = Ok ((2, 1, 1), map NI [1099511627776; 7]) /\
+    read_chunk (cchunk num) (list N) (vcseg_dec Words.U32 1 lv_geom) lv_scales dst [1%N] (0, 2, 0, 1, 0, 1)
+      = Ok ((2, 1, 1), map NI [4294967295; 7]) /\
+    read_chunk (cchunk num) (list N) (vcseg_dec Words.U32 1 lv_geom) lv_scales dst [1%N] (2, 3, 0, 1, 0, 1)
+      = Ok ((1, 1, 1), map NI [4294967295]).
+Proof. exact convert_pointwise_raw_to_cseg_nonvacuous. Qed.
+Print Assumptions C13_raw_to_cseg_example.
